@@ -55,6 +55,22 @@ func writeEvidence(dir, prop, tier string, seed int, results []*core.Result, kno
 	}
 	discharged, nontrivial := 0, 0
 	perRule := map[string][2]int{}
+	distinct := map[string]bool{}
+	isLookup := func(c string) bool {
+		for _, pre := range []string{"writer-of-", "writers-of-", "store-", "written-after-init", "installs-default-via-", "withholds-", "declares-only-", "one-pool-per-level", "floor"} {
+			if strings.HasPrefix(c, pre) {
+				return true
+			}
+		}
+		return false
+	}
+	for _, o := range obs {
+		key := o.Rule + "|" + o.Func + "|" + o.Construct
+		if !o.Trivial && !isLookup(o.Construct) && !distinct[key] {
+			distinct[key] = true
+			nontrivial++
+		}
+	}
 	for _, o := range obs {
 		pr := perRule[o.Rule]
 		pr[0]++
@@ -63,9 +79,6 @@ func writeEvidence(dir, prop, tier string, seed int, results []*core.Result, kno
 			pr[1]++
 		} else {
 			violations = append(violations, o)
-		}
-		if !o.Trivial {
-			nontrivial++
 		}
 		perRule[o.Rule] = pr
 	}
@@ -106,8 +119,9 @@ func writeEvidence(dir, prop, tier string, seed int, results []*core.Result, kno
 		"discharged":          discharged,
 		"evaluations":         len(obs),
 		"distinct_nontrivial": nontrivial,
-		"rule": "one obligation per (rule, function, construct); obligations reached on several paths are merged; " +
-			"non-trivial = decided by a path/flow/table argument rather than an anchor lookup",
+		"rule": "evaluations = obligations evaluated in this run (one per rule x function x construct x build variant; an obligation reached on several paths is merged, any failing path fails it); " +
+			"distinct_nontrivial = distinct (rule, function, construct) triples, counted once across build variants, that were decided by a path / flow / table argument " +
+			"(who-may-write and other plain store-site lookups are not counted)",
 		"samples":            samples,
 		"exhaustive":         len(violations) == 0,
 		"paths_enumerated":   paths,
